@@ -333,3 +333,13 @@ PLANS["C24"] = {
             "coefficients beyond 2^64, several rounds; every thread's answer is compared with its solo run (memo of Script_Trace) and, where the "
             "numbers are small, with the kernel; the same under ThreadSanitizer; non-trivial = a definitive answer was compared",
 }
+
+PLANS["C16"] = {
+    "module": "NumLit_Trace", "pre": lambda: driver_build(),
+    "jobs": lambda seed, tier: spread(seed, "C16", N(tier, 50, 1000), ["-"], "numlit", size=0),
+    "per_batch": 10,
+    "rule": "numeral / decimal / fraction strings (fixed boundary list, random digit strings up to 28 digits, leading and trailing zeros, "
+            "damaged strings) given to the executable (one assert per literal in pipe mode, values read back with get-value) and to "
+            "ArithLogic::mkConst; TLC reads every string with the reference reader NumLit.tla (BigInt) and compares accept/reject and value; "
+            "non-trivial = more than three literals were accepted",
+}
